@@ -184,7 +184,7 @@ theorem withdraw_spec_gen {s s' : St} {who lp : Nat} (hab : s.ab.length = 6) (hl
     s'.lpVault + s'.lb.sum + lp = s.lpVault + s.lb.sum ∧ s'.sup = s.sup - lp ∧
     s'.bal + shareOf s lp = s.bal ∧ s'.pend = s.pend ∧ s'.lpVault = s.lpVault ∧ s'.ctr = s.ctr ∧
     s'.allTime = s.allTime ∧ s'.burned = s.burned ∧ s'.assetSupply = s.assetSupply ∧ s'.fees = s.fees ∧
-    s'.kind = s.kind ∧ lp ≤ getN s.lb who ∧ s.sup ≠ 0 ∧ s.pend ≤ s.bal := by
+    s'.kind = s.kind ∧ lp ≤ getN s.lb who ∧ s.sup ≠ 0 ∧ s.pend ≤ s.bal ∧ s'.sent = s.sent := by
   obtain ⟨hok, rfl⟩ := withdraw_ok_of_some h
   simp only [withdrawOk, Bool.and_eq_true, decide_eq_true_eq, Bool.not_eq_true', Bool.and_eq_false_iff,
     decide_eq_false_iff_not] at hok
@@ -197,7 +197,7 @@ theorem withdraw_spec_gen {s s' : St} {who lp : Nat} (hab : s.ab.length = 6) (hl
   have h1 := setN_sum s.ab who (getN s.ab who + sh) hwa
   have h2 := setN_sum s.lb who (getN s.lb who - lp) hwl
   refine ⟨by simp [setN_length, hab], by simp [setN_length, hlb], ?_, ?_, ?_, ?_,
-    ?_, ?_, ?_, ?_, ?_, ?_, ?_, ?_, hlp, hsup, hpend⟩
+    ?_, ?_, ?_, ?_, ?_, ?_, ?_, ?_, hlp, hsup, hpend, ?_⟩
   all_goals try (simp only; done)
   all_goals (simp only; omega)
 
@@ -313,13 +313,14 @@ structure CbRel (s s' : St) : Prop where
   fees : s'.fees = s.fees
   kind : s'.kind = s.kind
   lpVault : s'.lpVault = s.lpVault
+  ledgerSum : s'.pend + s'.sent = s.pend + s.sent
 
-theorem CbRel.refl (s : St) : CbRel s s := ⟨le_refl _, le_refl _, rfl, rfl, rfl, rfl, rfl, rfl, rfl⟩
+theorem CbRel.refl (s : St) : CbRel s s := ⟨le_refl _, le_refl _, rfl, rfl, rfl, rfl, rfl, rfl, rfl, rfl⟩
 
 theorem CbRel.trans {a b c : St} (h1 : CbRel a b) (h2 : CbRel b c) : CbRel a c :=
   ⟨le_trans h2.sup h1.sup, le_trans h2.pend h1.pend, h2.ctr.trans h1.ctr, h2.allTime.trans h1.allTime,
    h2.burned.trans h1.burned, h2.assetSupply.trans h1.assetSupply, h2.fees.trans h1.fees,
-   h2.kind.trans h1.kind, h2.lpVault.trans h1.lpVault⟩
+   h2.kind.trans h1.kind, h2.lpVault.trans h1.lpVault, h2.ledgerSum.trans h1.ledgerSum⟩
 
 theorem transferOut_spec {s s' : St} {dst n : Nat} (hab : s.ab.length = 6)
     (h : transferOut s dst n = some s') :
@@ -345,16 +346,16 @@ theorem run_cb {s s' : St} {a : Act} (hI : CbInv s) (h : run s a = some s') : Cb
     rw [run_pay] at h
     obtain ⟨rfl, _, hsum, hlen⟩ := payIn_spec hI.abLen (by omega) h
     exact ⟨⟨hlen, hI.lbLen, by rw [hsum]; exact hI.assetSum, hI.lpSum, hI.ctrPos⟩,
-      ⟨le_refl _, le_refl _, rfl, rfl, rfl, rfl, rfl, rfl, rfl⟩⟩
+      ⟨le_refl _, le_refl _, rfl, rfl, rfl, rfl, rfl, rfl, rfl, rfl⟩⟩
   | deposit n => rw [run_deposit, deposit_ctr _ _ _ _ hI.ctrPos] at h; cases h
   | withdraw lp =>
     rw [run_withdraw] at h
-    obtain ⟨a1, a2, a3, a4, a5, a6, a7, a8, a9, a10, a11, a12, a13, a14, hlp, hsup, hpend⟩ :=
+    obtain ⟨a1, a2, a3, a4, a5, a6, a7, a8, a9, a10, a11, a12, a13, a14, hlp, hsup, hpend, hsent⟩ :=
       withdraw_spec_gen hI.abLen hI.lbLen (by omega) h
     have h3 := getN_le_sum s.lb 3
     have hl := hI.lpSum
     refine ⟨⟨a1, a2, ?_, ?_, by rw [a9]; exact hI.ctrPos⟩,
-      ⟨by omega, by omega, a9, a10, a11, a12, a13, a14, a8⟩⟩
+      ⟨by omega, by omega, a9, a10, a11, a12, a13, a14, a8, by rw [a7, hsent]⟩⟩
     · rw [a3, a12]; exact hI.assetSum
     · omega
   | collect =>
@@ -369,14 +370,14 @@ theorem run_cb {s s' : St} {a : Act} (hI : CbInv s) (h : run s a = some s') : Cb
         have hs := setN_sum s.ab 4 (getN s.ab 4 + s.pend) h4
         have := hI.assetSum
         refine ⟨⟨by simp [collectRes, setN_length, hI.abLen], hI.lbLen, ?_, hI.lpSum, hI.ctrPos⟩,
-          ⟨le_refl _, Nat.zero_le _, rfl, rfl, rfl, rfl, rfl, rfl, rfl⟩⟩
+          ⟨le_refl _, Nat.zero_le _, rfl, rfl, rfl, rfl, rfl, rfl, rfl, by simp only [collectRes]; omega⟩⟩
         simp only [collectRes]; omega
   | transferOut dst n =>
     rw [run_transferOut] at h
     obtain ⟨hlen, hsum, heq⟩ := transferOut_spec hI.abLen h
     rw [heq]
     exact ⟨⟨hlen, hI.lbLen, by simp only; rw [hsum]; exact hI.assetSum, hI.lpSum, hI.ctrPos⟩,
-      ⟨le_refl _, le_refl _, rfl, rfl, rfl, rfl, rfl, rfl, rfl⟩⟩
+      ⟨le_refl _, le_refl _, rfl, rfl, rfl, rfl, rfl, rfl, rfl, rfl⟩⟩
   | fail => rw [run_fail] at h; cases h
   | loan n cb => rw [run_loan, loanFrom_ctr _ _ _ hI.ctrPos] at h; cases h
 
@@ -440,6 +441,7 @@ structure LoanSpec (s s' : St) (amount : Nat) : Prop where
   ctr : s'.ctr = 0
   fees : s'.fees = s.fees
   lpVault : s'.lpVault = s.lpVault
+  ledger : s'.pend + s'.sent = s.pend + s.sent + fee s.fees.prot amount
 
 /-- the state in which a borrower's callback starts (loan paid out to account `a`, counter raised)
     satisfies the callback invariant -/
@@ -470,6 +472,7 @@ theorem loan_tail {s s1 s2 s' : St} {amount a : Nat} (hI : Inv s) (ha : a < 6)
   have e_as : s1.assetSupply = s.assetSupply := by rw [hs1]
   have e_fees : s1.fees = s.fees := by rw [hs1]
   have e_lpv : s1.lpVault = s.lpVault := by rw [hs1]
+  have e_sent : s1.sent = s.sent := by rw [hs1]
   -- after_trade
   obtain ⟨hok, rfl⟩ := afterTrade_ok_of_some h
   simp only [afterTradeOk, Bool.and_eq_true, decide_eq_true_eq] at hok
@@ -483,7 +486,7 @@ theorem loan_tail {s s1 s2 s' : St} {amount a : Nat} (hI : Inv s) (ha : a < 6)
   have hsup2 : s2.sup ≤ s.sup := by have := r.sup; omega
   have hbf : fee s.fees.burn amount ≤ s2.bal := by omega
   have hlv : s2.lpVault = s.lpVault := r.lpVault.trans e_lpv
-  refine ⟨⟨?_, ?_, ?_, ?_, ?_, ?_, ?_⟩, ?_, ?_, ?_, ?_, ?_, ?_, ?_, ?_, ?_⟩
+  refine ⟨⟨?_, ?_, ?_, ?_, ?_, ?_, ?_⟩, ?_, ?_, ?_, ?_, ?_, ?_, ?_, ?_, ?_, ?_⟩
   all_goals simp only [afterTradeRes, hf]
   · exact hI2.abLen
   · exact hI2.lbLen
@@ -504,6 +507,7 @@ theorem loan_tail {s s1 s2 s' : St} {amount a : Nat} (hI : Inv s) (ha : a < 6)
   · exact hsup2
   · have := r.ctr; omega
   · exact hlv
+  · have := r.ledgerSum; omega
 
 theorem loan_spec {s s' : St} {amount : Nat} {cb : List Act} (hI : Inv s)
     (h : loanFrom s amount cb = some s') : LoanSpec s s' amount := by
@@ -550,13 +554,13 @@ theorem move_cb {s s' : St} {src dst n : Nat} (hI : CbInv s) (hs : src < 6) (hd 
   obtain ⟨hlen, hsum, heq, _, _⟩ := move_spec hI.abLen hs hd h
   rw [heq]
   exact ⟨⟨hlen, hI.lbLen, by simp only; rw [hsum]; exact hI.assetSum, hI.lpSum, hI.ctrPos⟩,
-    ⟨le_refl _, le_refl _, rfl, rfl, rfl, rfl, rfl, rfl, rfl⟩⟩
+    ⟨le_refl _, le_refl _, rfl, rfl, rfl, rfl, rfl, rfl, rfl, rfl⟩⟩
 
 theorem payIn_cb {s s' : St} {a n : Nat} (hI : CbInv s) (ha : a < 6) (h : payIn s a n = some s') :
     CbInv s' ∧ CbRel s s' := by
   obtain ⟨rfl, _, hsum, hlen⟩ := payIn_spec hI.abLen ha h
   exact ⟨⟨hlen, hI.lbLen, by rw [hsum]; exact hI.assetSum, hI.lpSum, hI.ctrPos⟩,
-    ⟨le_refl _, le_refl _, rfl, rfl, rfl, rfl, rfl, rfl, rfl⟩⟩
+    ⟨le_refl _, le_refl _, rfl, rfl, rfl, rfl, rfl, rfl, rfl, rfl⟩⟩
 
 theorem collect_cb {s s' : St} (hI : CbInv s) (h : collect s = some s') : CbInv s' ∧ CbRel s s' := by
   have := run_cb (a := .collect) hI (by rw [run_collect]; exact h)
@@ -618,7 +622,7 @@ theorem completeLoan_cb {s s' : St} {i n : Nat} (hI : CbInv s) (hi : i < 5)
   obtain ⟨_, heq, hlen, hsum, _⟩ := completeLoan_spec hI.abLen hi h
   have hs := hI.assetSum
   have e_bal : s'.bal = s.bal + payback s n := by rw [heq]
-  refine ⟨⟨hlen, ?_, ?_, ?_, ?_⟩, ⟨?_, ?_, ?_, ?_, ?_, ?_, ?_, ?_, ?_⟩⟩
+  refine ⟨⟨hlen, ?_, ?_, ?_, ?_⟩, ⟨?_, ?_, ?_, ?_, ?_, ?_, ?_, ?_, ?_, ?_⟩⟩
   · rw [heq]; exact hI.lbLen
   · have e : s'.assetSupply = s.assetSupply := by rw [heq]
     rw [e, e_bal]; omega
